@@ -225,6 +225,13 @@ fn planted_leak() {
     std::hint::black_box(&junk);
 }
 
+/// The second ASan build: xt with its shipped settings (no debug assertions, no overflow checks), where a
+/// `debug_assert!` does not turn an out-of-bounds access into a clean panic first. The first build keeps the
+/// assertions on, where an invalid `char` or a violated unsafe precondition aborts instead of passing silently.
+fn san_bin_shipped() -> String {
+    std::env::var("XTV_SAN_BIN_SHIPPED").unwrap_or_else(|_| "/verif/out/target-asan-shipped/x86_64-unknown-linux-gnu/release/xtv_san".into())
+}
+
 fn san_bin() -> String {
     std::env::var("XTV_SAN_BIN").unwrap_or_else(|_| "/verif/out/target-asan/x86_64-unknown-linux-gnu/release/xtv_san".into())
 }
@@ -304,7 +311,7 @@ pub fn run(ctx: &Ctx) -> i32 {
     let mut acc = Acc::default();
     let shards = crate::par::threads().min(16);
     // ---- 1. ASan + LSan ----
-    let cases_per_shard = ctx.size(60, 3000);
+    let cases_per_shard = ctx.size(120, 6000);
     let bin = san_bin();
     if !std::path::Path::new(&bin).exists() {
         println!("INCONCLUSIVE property=C17 sanitizer binary missing: {bin}");
@@ -319,10 +326,19 @@ pub fn run(ctx: &Ctx) -> i32 {
             Err(e) => acc.harness_errors.push(format!("cannot run the sanitizer binary: {e}")),
         }
     }
+    let bin_shipped = san_bin_shipped();
+    if !std::path::Path::new(&bin_shipped).exists() {
+        println!("INCONCLUSIVE property=C17 sanitizer binary (shipped settings) missing: {bin_shipped}");
+        return 2;
+    }
+    // the same shard of the workload goes through both builds: first half of the processes with assertions on,
+    // second half with xt's shipped settings
+    let half = (shards / 2).max(1);
     let cmds: Vec<Command> = (0..shards)
-        .map(|i| {
-            let mut c = Command::new(&bin);
-            c.args(["workload", "--seed", &ctx.seed.to_string(), "--shard", &i.to_string(), "--of", &shards.to_string(), "--cases", &cases_per_shard.to_string()]);
+        .map(|p| {
+            let i = p % half;
+            let mut c = Command::new(if p < half { &bin } else { &bin_shipped });
+            c.args(["workload", "--seed", &ctx.seed.to_string(), "--shard", &i.to_string(), "--of", &half.to_string(), "--cases", &cases_per_shard.to_string()]);
             c.env("ASAN_OPTIONS", "detect_leaks=1:halt_on_error=1:abort_on_error=0:exitcode=66:allocator_may_return_null=1").env("LSAN_OPTIONS", "exitcode=67");
             c
         })
@@ -342,7 +358,7 @@ pub fn run(ctx: &Ctx) -> i32 {
         } else {
             let text = std::fs::read_to_string(&r.log).unwrap_or_default();
             let first = text.lines().find(|l| l.contains("ERROR: AddressSanitizer") || l.contains("ERROR: LeakSanitizer") || l.contains("SUMMARY:")).unwrap_or("no sanitizer banner; see log").to_string();
-            acc.violation(Violation { sig: format!("sanitizer report: {}", ev::truncate(&crate::c02_mask(&first), 90)), case: json!({"instrument": "asan", "shard": i, "of": shards, "cases": cases_per_shard, "seed": ctx.seed, "log": r.log}), observed: format!("shard {i} ended with exit {:?} signal {:?}: {first}", r.exit, r.signal), expected: "exit 0 and no AddressSanitizer/LeakSanitizer report".into() });
+            acc.violation(Violation { sig: format!("sanitizer report: {}", ev::truncate(&crate::c02_mask(&first), 90)), case: json!({"instrument": "asan", "build": if i < half { "assertions_on" } else { "shipped_settings" }, "shard": i % half, "of": half, "cases": cases_per_shard, "seed": ctx.seed, "log": r.log}), observed: format!("shard {i} ended with exit {:?} signal {:?}: {first}", r.exit, r.signal), expected: "exit 0 and no AddressSanitizer/LeakSanitizer report".into() });
         }
     }
     // ---- 2. Miri ----
